@@ -150,6 +150,7 @@ MUTANTS = {
     "class_level_queue": M(SDATA, "        self._RGlobalQueue = CharacteristicsQueue(maxlen)\n        self.__firstDataItem", "        self._RGlobalQueue = SearchData._SHARED_Q\n        self.__firstDataItem", ["C12"]),
     "first_iteration_rerun_by_solve": M(PROCESS, "        startTime = datetime.now()\n", "        if self.__first_iteration is False:\n            self.method.FirstIteration()\n        startTime = datetime.now()\n", ["C11"], note="the commented-out block in Solve, re-enabled"),
     "getimage_no_copy": M(EVOL, "        self.__TransformP2D()\n        return np.copy(self.yValues)", "        self.__TransformP2D()\n        return self.yValues", ["C17"]),
+    "image_1d_reuses_the_work_vector": M(EVOL, "            self.yValues = np.zeros(1, dtype=np.double)\n            self.yValues[0] = _x - 0.5", "            self.yValues[0] = _x - 0.5", ["C17"], note="revert of fix 12"),
     "inverse_int_dtype_again": M(EVOL, "        self.yValues = np.array(y, dtype=np.double)\n", "        self.yValues = np.copy(y)\n", ["C17"], note="revert of fix 10", count=2),
     "inverse_no_copy_in": M(EVOL, "        self.yValues = np.array(y, dtype=np.double)\n        self.__TransformD2P()\n        x = self.__GetXonY()\n        return x\n\n    # ----------------------", "        self.yValues = np.asarray(y, dtype=np.double)\n        self.__TransformD2P()\n        x = self.__GetXonY()\n        return x\n\n    # ----------------------", ["C17"]),
     "setbounds_alias": M(EVOL, "        self.lowerBoundOfFloatVariables = np.copy(lowerBoundOfFloatVariables)\n        self.upperBoundOfFloatVariables = np.copy(upperBoundOfFloatVariables)\n\n    def GetImage", "        self.lowerBoundOfFloatVariables = lowerBoundOfFloatVariables\n        self.upperBoundOfFloatVariables = upperBoundOfFloatVariables\n\n    def GetImage", ["C17"]),
